@@ -281,6 +281,14 @@ func registerIntrinsics(in *Interp) {
 		p := a[0].(Iface).V.(Ptr)
 		return done(Bool{C: st.locks[p.Obj] == st.g().id+1})
 	}
+	// verifAnd / verifOr / verifImplies combine conditions into one term without branching, so that a
+	// batch of checks costs a single solver query
+	I["verif:verifAnd"] = func(st *State, fr *Frame, a []Value, _ ssa.Value) (Value, int) {
+		return done(mkBoolT(tAnd(a[0].(Bool).term(), a[1].(Bool).term())))
+	}
+	I["verif:verifOr"] = func(st *State, fr *Frame, a []Value, _ ssa.Value) (Value, int) {
+		return done(mkBoolT(tOr(a[0].(Bool).term(), a[1].(Bool).term())))
+	}
 	I["verif:verifBytesEq"] = func(st *State, fr *Frame, a []Value, _ ssa.Value) (Value, int) {
 		return done(mkBoolT(st.bytesEq(a[0].(Slice), a[1].(Slice))))
 	}
